@@ -6,6 +6,7 @@ which that property's check observes it. Patterns are as wide as the mechanism a
 import json, sys
 
 FIXED = [
+ ("C04","3399969","codec/ts_unix_{seconds,millis}/*@*ts-year-1{500,677}","roundtrip-changed|canon-changed","UNIX_SECONDS/UNIX_MILLIS decoders built the intermediate time in the process's local zone and re-rendered it as RFC 3339 (offsets without seconds): under a zone whose offset at that instant has a seconds part (Asia/Kolkata +05:53:28 before 1906) {\"v\":-14831769600000} decoded to seconds:-14831769572"),
  ("C19","7dd3c12","rules/numeric-{gte,gt,lte,lt,gte+lte,gt+lt,gte=lte}/float/bound=inexact","schema-rejects-what-rules-accept","float32 rule bounds were widened with float64(): a bound such as 3.14159 was published as 3.141590118408203, so the JSON form of a value equal to the bound compared unequal to the published minimum/maximum"),
  ("C20","92ff240","mock/examples/same-short-name/*","value-outside-declared-examples","the mock's example table was keyed by the nested message path while the emitted lookups used the bare message name: examples on nested messages were never used and a nested message took the examples of a same-named top-level one"),
  ("C03","d36cb3a","route/base=noslash/*","handler-not-reached","base_path/path without a leading slash made the Go server register a host pattern (or panic at registration) while clients and OpenAPI used a slash-prefixed path"),
@@ -303,9 +304,9 @@ mech("ts-request-root-unwrap",
 
 mech("timestamp-unix-extremes",
  "UNIX_SECONDS/UNIX_MILLIS codecs mishandle pre-epoch and extreme timestamps (negative values with nanos, min/max seconds)",
- [("C04","codec/ts_unix_*",["roundtrip-changed","decode-own-output","canon-changed","canon-decode-error"],None),
+ [("C04","codec/ts_unix_*@{*ts-max,*ts-min,combo*}",["roundtrip-changed","decode-own-output","canon-changed","canon-decode-error"],None),
   ("C05","json/ts_unix_*/ctx=top/*",["request-changed","contract-form-rejected","changed-value","status"],None),
-  ("C01","deliver/body/ts_unix_*",["request-changed","response-changed","handler-not-reached","client-error"],None)])
+  ("C01","deliver/body/ts_unix_*@*ts-m{ax,in}*",["request-changed","response-changed","handler-not-reached","client-error"],None)])
 
 mech("default-path-disagreement",
  "an RPC without an explicit path: Go server registers /<base|gopkg>/<snake_method>, Go/TS clients and TS server use /<base>/<lowerCamelMethod>, OpenAPI publishes /<base> (colliding operations) or /<Service>/<Method>",
